@@ -525,3 +525,11 @@ func init() {
 func init() {
 	ctl("monitor request sent without arming the deferral", "DEFER-ARM", "monitor|monitor request sent with deferral armed", "client", "ovsdbClient", "monitor", kStmt, "db.deferUpdates = true", 0, del)
 }
+
+func init() {
+	// ---- rules added after the seventh wave
+	ctl("event processor looks at the stop channel again after a receive", "V-RECV-PATH", "Run|no exit between", "cache", "eventProcessor", "Run", kStmt, "e.handlersMutex.Lock()", 0, before("select {\ncase <-stopCh:\nreturn\ndefault:\n}"))
+	ctl("mapper skips the store for default values", "M-STORE", "getData|converted column value", "mapper", "Mapper", "getData", kStmt, "if err := result.SetField(name, nativeElem); err != nil", 0, before("if ovsdb.IsDefaultValue(column, nativeElem) {\ncontinue\n}"))
+	ctl("connect can fail after starting its handlers", "R-STARTLAST", "connect|handlers started", "client", "ovsdbClient", "connect", kStmt, "o.connected = true", 0, before("if o.rpcClient == nil {\nreturn ErrNotConnected\n}"))
+	ctl("generator logs a formatting failure and reports success", "ERR-NILRET", "Format|tested error", "modelgen", "generator", "Format", kStmt, "return nil, err", 1, to("log.Printf(\"%v\", err)\nreturn buffer.Bytes(), nil"))
+}
